@@ -803,7 +803,7 @@ func TestC10Reject(t *testing.T) {
 	vlib.RunCases(t, "C10", "reject", n, func(c *vlib.Case) vlib.Result {
 		var res vlib.Result
 		g := c10gen{c.Rng}
-		f := c10faults[c.Index%len(c10faults)]
+		f := c10faults[(c.Index/2)%len(c10faults)] // (index/2: the odd cases below must not pin the parity of the fault index)
 		if c.Index%2 == 1 {
 			f = c10faults[0] // every other case: an unknown key in an object chosen anywhere in the document
 		}
